@@ -333,14 +333,13 @@ Fixpoint has_sel (n : node) : bool := match n with Node _ _ s _ ks _ => s || exi
 (* ------------------------------------------------------------------ replace(formatted=True), REPAIRED code (fixes/F27) *)
 Definition container (k : kind) := match k with KP | KH | KSpan => true | _ => false end.
 Definition ws_kind (k : kind) := match k with KS _ | KTab | KLb => true | _ => false end.
+Definition is_spacer (k : kind) := match k with KS _ => true | _ => false end.
 Definition node_item (n : node) : item :=
   match n with
-  | Node (KS c) _ _ _ _ _ => IS c
-  | Node KTab _ _ _ _ _ => ITab
-  | Node KLb _ _ _ _ _ => ILb
-  | Node k a s tx ks _ => IElem 0 (readable_ev (flat (Node k a s tx ks None)))
+  | Node (KS c) _ _ _ _ _ => IS c                     (* only text:s is expanded by _expand_spaces; an existing *)
+  | Node k a s tx ks _ =>                             (* tab / line-break element is kept like any other child  *) IElem 0 (readable_ev (flat (Node k a s tx ks None)))
   end.
-Definition ostr (o : option str) : list item := match o with Some s => [IStr s] | None => [] end.
+Definition ostr (o : option str) : list item := match o with Some (t :: s) => [IStr (t :: s)] | _ => [] end.
 (* what Paragraph._expand_spaces walks: self.xpath("*|text()") *)
 Definition items_of (tx : option str) (ks : list node) : list item :=
   ostr tx ++ flat_map (fun c => node_item c :: ostr (tail_of c)) ks.
@@ -363,7 +362,7 @@ Definition normalise (n : node) : node :=
   match n with
   | Node k a sel tx ks tl =>
       let its := append_plain_text (items_of tx ks) [] in
-      let '(tx', ks') := rebuild its (filter (fun c => negb (ws_kind (kind_of c))) ks) (Some [], []) in
+      let '(tx', ks') := rebuild its (filter (fun c => negb (is_spacer (kind_of c))) ks) (Some [], []) in
       Node k a sel tx' ks' tl
   end.
 Section ReplaceTree.
